@@ -306,12 +306,11 @@ C14 = [
 ] + [
     _ma("hwloc_memattr_register", cost=60, note="exactly one of HIGHER/LOWER_FIRST else EINVAL, NULL name EINVAL, duplicate name EBUSY, success appends with next id; <= 2 existing attributes, 2-char names"),
 ]
-C14_REFRESH_WIP = [   # not registered: did not finish within 10 minutes on this image (DESIGN.md section 3, C14); run with ./check C14WIP
-    Job(name="hwloc__imattr_refresh", driver="memattrs.refresh.drv.c", entry="hp_hwloc__imattr_refresh", mode="plain", unwind=5, objbits=12, min_post=0, cost=60, family="memattrs", label="bounded", malloc_may_fail=False, timeout=1200,
+C14 += [   # thorough tier only: 14 minutes on this image
+    Job(name="hwloc__imattr_refresh", tiers=("thorough",), driver="memattrs.refresh.drv.c", entry="hp_hwloc__imattr_refresh", mode="plain", unwind=5, objbits=12, min_post=0, cost=60, family="memattrs", label="bounded", malloc_may_fail=False, timeout=3000,
         note="hwloc__imattr_refresh / hwloc__imtg_refresh / hwloc__imi_refresh after the topology changed: <= 2 targets with <= 2 initiators each (object or cpuset, arbitrary values), every survival pattern of the objects, every root cpuset over an 8-PU universe: exactly the surviving targets and initiators remain, in order, with their values and refreshed object pointers; cpuset initiators are intersected with the topology cpuset; cpusets of removed initiators are released exactly once; the cache is marked valid"),
 ]
 PROPS["C14"] = C14
-PROPS["C14WIP"] = C14_REFRESH_WIP
 
 
 # ------------------------------------------------------------------ C05 leaf: base64.c (bounded)
